@@ -636,21 +636,32 @@ start:
 						} else {
 							s.setOuter(tuple.Tag, MaybeNil)
 						}
-						s.setOuter(v, s.get(tuple.Tag).Inner)
+						// In the default branch the value is the switched-over
+						// interface value itself.
+						tag := s.get(tuple.Tag)
+						if tag.Inner == 0 {
+							tag.Inner = MaybeNil
+						}
+						s.set(v, tag)
 					} else {
 						// There is no Extract for the 'untyped nil' case,
 						// which means that executing any Extract from a type
 						// switch implies that the switched-over value wasn't a
 						// nil interface value.
 						s.setOuter(tuple.Tag, NeverNil)
-						typ := tuple.Conds[idx]
-						if types.IsInterface(typ) && !typeparams.IsTypeParam(typ) {
+						inner := s.get(tuple.Tag).Inner
+						if inner == 0 {
+							inner = MaybeNil
+						}
+						// In a clause listing several types the value has the
+						// type of the switched-over value, not that of the
+						// matched case, so look at the value's own type.
+						if types.IsInterface(v.Type()) && !typeparams.IsTypeParam(v.Type()) {
 							// Succesfully type asserting to an interface type
 							// always produces a non-nil interface value.
-							s.setInner(v, s.get(tuple.Tag).Inner)
-							s.setOuter(v, NeverNil)
+							s.set(v, ValueNilness{Inner: inner, Outer: NeverNil})
 						} else {
-							s.setOuter(v, s.get(tuple.Tag).Inner)
+							s.setOuter(v, inner)
 						}
 					}
 				default:
